@@ -36,10 +36,18 @@ def ptok(v):
     return "J" + json.dumps(v, separators=(",", ":")).encode().hex()
 
 
+def _plain(o):
+    # what a faithful record holds for a numpy scalar / array: the plain Python value
+    if hasattr(o, "tolist"):
+        return o.tolist()
+    raise TypeError(type(o).__name__)
+
+
 def jsonable(v):
-    """The value as it comes back from a JSON round trip, or a marker if it cannot be encoded."""
+    """The plain value as it comes back from a JSON round trip (numpy scalars/arrays -> Python numbers/lists),
+    or a marker if it cannot be encoded at all."""
     try:
-        return json.loads(json.dumps(v))
+        return json.loads(json.dumps(v, default=_plain))
     except TypeError:
         return ("<not json>", type(v).__name__)
 
@@ -111,7 +119,7 @@ def bound_args(entry, method, kwargs):
     return out
 
 
-def encode_case(cid, entry, method, user, n_prior, passed, npop, computed):
+def encode_case(cid, entry, method, user, n_prior, passed, npop, computed, extra=None):
     lines = [f"case {cid}", f"entry {entry}"]
     if method:
         lines.append(f"method {method}")
@@ -126,6 +134,8 @@ def encode_case(cid, entry, method, user, n_prior, passed, npop, computed):
         lines.append(f"npop {ptok(jsonable(npop))}")
     if computed is not None:
         lines.append(f"computed {ptok(computed)}")
+    for k, v in (extra or {}).items():
+        lines.append(f"extra {k} {ptok(jsonable(v))}")
     lines.append("end")
     return "\n".join(lines) + "\n"
 
